@@ -126,6 +126,9 @@ func ParseNote(b []byte) (*ParsedNote, error) {
 		}
 		pn.Sigs = append(pn.Sigs, SigLine{Name: name, Hash: binary.BigEndian.Uint32(raw), Sig: raw[4:], Line: l})
 	}
+	if len(pn.Sigs) > maxNoteSigs {
+		return nil, errNoteFormat // the format's limit on signature lines
+	}
 	return pn, nil
 }
 
